@@ -1,5 +1,5 @@
 (* C04 — Answers are independent of clause order and engine history. Model: Model/Datalog.v. *)
-From IL Require Import Model.Value Model.Datalog Proofs.DatalogMono Proofs.DatalogMisc Proofs.DatalogEngine.
+From IL Require Import Model.Value Model.Datalog Proofs.DatalogMono Proofs.DatalogMisc Proofs.DatalogEngine Proofs.DatalogPerm.
 From Coq Require Import Permutation.
 Open Scope N_scope.
 
@@ -22,10 +22,34 @@ Theorem C04_base_facts_unchanged :
     forall r, ~ In r o -> get env' r = get env r.
 Proof. exact run_nodes_base. Qed.
 
+(* FULL statement for clause order and repetition: two programs with the same clause SET (any order, any
+   repetition of clauses) have the same perfect model on every relation, and the engine strategy returns
+   the same answer for both — for every EDB and fuel, under C01's decidable hypotheses (aggregate-free,
+   stratified, derived relations without stored facts, dependency-respecting execution order). Proved by
+   leastness of both models along the dependency order (Proofs/DatalogPerm.v). *)
+Theorem C04_clause_order_and_repetition :
+  forall fuel p p' edb M M' ans ans',
+    (forall c, In c p <-> In c p') ->
+    no_aggb p = true -> stratified p = true -> stratified p' = true -> heads_fresh p edb = true ->
+    order_ok p = true -> order_ok p' = true ->
+    perfect_model fuel p edb = Some M -> perfect_model fuel p' edb = Some M' ->
+    eval_engine fuel p edb = Some ans -> eval_engine fuel p' edb = Some ans' ->
+    topo_order p <> [] -> topo_order p' <> [] -> engine_query p = engine_query p' ->
+    (forall r, seq (get M r) (get M' r)) /\ seq ans ans'.
+Proof.
+  intros fuel p p' edb M M' ans ans' Hs Ha S1 S2 Hf O1 O2 HM HM' He He' N1 N2 Hq.
+  pose proof (no_aggb_spec p Ha) as Ha1.
+  pose proof (perfect_model_same_clauses p p' fuel edb Hs Ha1 S1 S2 Hf M M' HM HM' O1) as Hall.
+  split; [exact Hall|].
+  pose proof (engine_correct p fuel edb Ha1 S1 Hf M HM ans O1 He N1) as C1.
+  pose proof (engine_correct p' fuel edb (same_no_agg p p' Hs Ha1) S2 (same_fresh p p' edb Hs Hf) M' HM' ans' O2 He' N2) as C2.
+  rewrite <- Hq in C2.
+  eapply seq_trans; [exact C1|]. eapply seq_trans; [apply Hall|]. apply seq_sym, C2.
+Qed.
+
 (* Two programs with the same clause set, both inside C01's hypotheses, answer with the query relation
-   of their perfect models (corollary of C01).  `_partial`: that the two perfect models coincide
-   (invariance of the specification itself under clause permutation) is validated by the oracle on
-   every generated permutation (Checks/C04.v), not proved. *)
+   of their perfect models (corollary of C01; superseded by C04_clause_order_and_repetition above,
+   kept because it does not need `stratified p'` to be related to p). *)
 Theorem C04_perm_partial :
   forall fuel p p' edb M M' ans ans',
     Permutation p p' ->
@@ -45,3 +69,4 @@ Print Assumptions C04_consequences_perm.
 Print Assumptions C04_consequences_dup.
 Print Assumptions C04_base_facts_unchanged.
 Print Assumptions C04_perm_partial.
+Print Assumptions C04_clause_order_and_repetition.
